@@ -29,6 +29,10 @@ pub struct Tmpl {
     pub points_ok: bool, // no identity / undecodable point
     pub rounds: usize,
     pub d1: usize,
+    /// the bit length the proof was made for, and whether it is an honest proof for this statement's commitments and
+    /// promises (re-issuing the statement over other parameters changes neither)
+    pub proof_n: usize,
+    pub proof_ok: bool,
 }
 
 impl Tmpl {
@@ -72,7 +76,7 @@ pub fn make_valid(n: usize, m: usize, cap: usize, t: usize, seeded: bool, ped: u
         (stmt, proof)
     };
     let parts = fmx::parts(&proof);
-    Tmpl { rounds: parts.l.len(), d1: parts.d1.len(), inst, stmt, proof, ped, valid: true, fit: true, points_ok: true }
+    Tmpl { rounds: parts.l.len(), d1: parts.d1.len(), proof_n: n, proof_ok: true, inst, stmt, proof, ped, valid: true, fit: true, points_ok: true }
 }
 
 pub fn make_invalid(base: &Tmpl, how: usize) -> Tmpl {
@@ -86,6 +90,7 @@ pub fn make_invalid(base: &Tmpl, how: usize) -> Tmpl {
     }
     t.proof = parts.to_proof().expect("re-encode");
     t.valid = false;
+    t.proof_ok = false;
     t
 }
 
@@ -161,7 +166,7 @@ pub fn reissue(base: &Tmpl, n2: usize, cap2: usize) -> Option<Tmpl> {
     let mut t = base.clone();
     t.stmt = st;
     t.fit = base.stmt.minimum_value_promises.iter().all(|p| p.map(|v| n2 >= 64 || (v >> n2) == 0).unwrap_or(true));
-    t.valid = n2 == base.inst.n && base.valid;
+    t.valid = n2 == base.proof_n && base.proof_ok && t.fit;
     t.inst.n = n2;
     t.inst.cap = cap2;
     Some(t)
@@ -217,12 +222,18 @@ pub fn random_batches(opts: &Opts, out: &mut Out, rng: &mut rand_chacha::ChaCha1
                     Some(pool[o[pick(rng, o.len())]].clone())
                 },
                 5 => {
-                    let mut b = base.clone();
-                    let j = pick(rng, b.inst.m);
-                    b.stmt.minimum_value_promises[j] = Some(if pick(rng, 2) == 0 { 1u64 << n } else { u64::MAX });
-                    b.fit = false;
-                    b.valid = false;
-                    Some(b)
+                    // a promise that does not fit the member's own bit length (none exists at 64 bits)
+                    if base.inst.n >= 64 {
+                        None
+                    } else {
+                        let mut b = base.clone();
+                        let j = pick(rng, b.inst.m);
+                        b.stmt.minimum_value_promises[j] = Some(if pick(rng, 2) == 0 { 1u64 << base.inst.n } else { u64::MAX });
+                        b.fit = false;
+                        b.valid = false;
+                        b.proof_ok = false;
+                        Some(b)
+                    }
                 },
                 6 => Some(make_invalid(&base, pick(rng, 4))),
                 _ => {
@@ -233,7 +244,11 @@ pub fn random_batches(opts: &Opts, out: &mut Out, rng: &mut rand_chacha::ChaCha1
                     } else {
                         let mut b = base.clone();
                         b.proof = pool[o[pick(rng, o.len())]].proof.clone();
+                        let parts = fmx::parts(&b.proof);
+                        b.rounds = parts.l.len();
+                        b.d1 = parts.d1.len();
                         b.valid = false;
+                        b.proof_ok = false;
                         Some(b)
                     }
                 },
